@@ -189,4 +189,64 @@ class NaiveDate(Sub):
         return true < 0 or true % US != 0 or (kind == "fixed" and case["o1"] != case["o2"]), kind
 
 
-SUBS = [Pairs(), NaiveDate()]
+class NativeOperands(Sub):
+    ambient = True
+    name = "native_operands"
+    n = {"quick": 8000, "thorough": 200000}
+    shards = {"quick": 2, "thorough": 8}
+    rule = ("pendulum DateTime minus / subtracted from a NATIVE aware datetime whose tzinfo is foreign (zoneinfo.ZoneInfo, pytz localized with either is_dst, pytz attached "
+            "through the constructor (LMT offset), dateutil, datetime.timezone), the native wall time being anywhere - also inside a gap or an overlap, either fold: the "
+            "length is the native subtraction between values with different tzinfo objects, i.e. (p's instant) - (n's wall - n.utcoffset()); non-trivial: the native "
+            "wall time is skipped or repeated in its zone, or the tzinfo is not a ZoneInfo")
+
+    def strategy(self, ctx):
+        @st.composite
+        def gen(draw):
+            z = draw(S.zones_with_transitions())
+            zp = z if draw(st.booleans()) else draw(S.zones())
+            return {"zn": z, "zp": zp, "w": draw(st.one_of(S.wall_near_transition(z), S.wall_near_transition(z), S.uniform_instant())), "fold": draw(st.integers(0, 1)),
+                    "kind": draw(st.sampled_from(["zoneinfo", "zoneinfo", "pytz-localize", "pytz-ctor", "dateutil", "timezone"])), "is_dst": draw(st.booleans()),
+                    "up": draw(st.one_of(S.uniform_instant(), S.instant_near_transition(z))), "prov": draw(st.sampled_from(["convert", "construct"]))}
+        return gen()
+
+    def check(self, case, ctx):
+        import dateutil.tz
+        import pytz
+        zn, kind = case["zn"], case["kind"]
+        w = S.clamp_u(case["w"])
+        f = T.fields(T.wall_from_us(w))
+        if kind == "zoneinfo":
+            n = D.datetime(*f, tzinfo=T.zi(zn), fold=case["fold"])
+        elif kind in ("pytz-localize", "pytz-ctor"):
+            try:
+                ptz = pytz.timezone(zn)
+            except pytz.UnknownTimeZoneError:
+                raise Skip("pytz does not know the zone")
+            n = ptz.localize(D.datetime(*f), is_dst=case["is_dst"]) if kind == "pytz-localize" else D.datetime(*f, tzinfo=ptz)
+        elif kind == "dateutil":
+            dtz = dateutil.tz.gettz(zn)
+            if dtz is None:
+                raise Skip("dateutil cannot load the zone")
+            n = D.datetime(*f, tzinfo=dtz, fold=case["fold"])
+        else:
+            n = D.datetime(*f, tzinfo=D.timezone(D.timedelta(seconds=T.offset_at(w, zn))))
+        off = n.utcoffset()
+        if off is None:
+            raise Skip("tzinfo gives no offset")
+        un = w - T.td_us(off)
+        if not (S.LO_U <= un <= S.HI_U):
+            raise Skip("native value outside years 2..9998")
+        p = mk(case["zp"], S.clamp_u(case["up"]), case["prov"])
+        true = T.us(p) - un
+        fails = []
+        check_len("pendulum - native", p - n, true, fails)
+        check_len("native - pendulum", n - p, -true, fails)
+        if fails:
+            t, sub, got, exp = fails[0]
+            raise Violation(f"{t}{'.' + sub + '()' if sub else ''} ({kind} tzinfo): length is {got}, the native subtraction gives {exp}", p=p.isoformat(), native=n.isoformat(),
+                            native_fold=n.fold, native_offset=str(off))
+        k = T.classify_wall(w, zn)[0]
+        return k != "unique" or kind != "zoneinfo", kind + ":" + k
+
+
+SUBS = [Pairs(), NaiveDate(), NativeOperands()]
